@@ -380,6 +380,17 @@ def run_history(spec):
                 m = m2
             else:
                 rec["ret"] = "exc:" + obs["err"]
+        elif kind == "graph":
+            # the structural graph of the project (get_networkx_graph), projected to index names
+            vw, vf = bool(op.get("workers")), bool(op.get("facilities"))
+            rec["args"]["workers"], rec["args"]["facilities"] = vw, vf
+            box = {}
+
+            def _graph():
+                box["G"] = m.project.get_networkx_graph(view_workers=vw, view_facilities=vf)
+
+            ev, rec["ret"] = call_recorded(m, _graph)
+            rec["obs"] = _graph_obs(m, box.get("G"))
         else:
             raise ValueError("unknown op %r" % kind)
         rec["final"] = snapshot(m)
@@ -393,6 +404,25 @@ def run_history(spec):
         shutil.rmtree(tmp, ignore_errors=True)
     _reset_default_arguments()
     return {"cfg": spec["cfg"], "runs": runs, "spec": spec}
+
+
+def _graph_obs(m, G):
+    """Nodes and edges of a networkx graph named by the specification's indices; an object that is
+    not one of the model's own objects is named "?" (so a graph over foreign objects cannot match)."""
+    if G is None:
+        return {"nodes": [], "edges": []}
+    names = {}
+    for pre, objs in (("T", m.tasks), ("C", m.comps), ("M", m.teams), ("P", m.wps),
+                      ("W", m.workers), ("F", m.facs)):
+        for i, o in enumerate(objs, 1):
+            if o is not None:
+                names[id(o)] = "%s%d" % (pre, i)
+
+    def nm(o):
+        return names.get(id(o), "?")
+
+    return {"nodes": sorted(nm(n) for n in G.nodes()),
+            "edges": sorted([nm(a), nm(b)] for a, b in G.edges())}
 
 
 def _reset_default_arguments():
